@@ -83,6 +83,8 @@ CASES = [
     ("ceil_int", "def f(a, b):\n    n = int(torch.ceil(a[0] / 3))\n    return torch.ones(n + 1)", (1,), (1,)),
     ("python_int_division", "def f(a, b):\n    return torch.tensor([int(7 / 2), 7 // 2, -7 // 2, 7 % 3, -7 % 3, int(-3.5)])", (1,), (1,)),
     ("tuple_unpack_comprehension", "def f(a, b):\n    rows = [a[i] * (i + 1) for i in range(a.shape[0]) if i != 1]\n    return torch.stack(rows)", (3, 2), (1,)),
+    ("mask2d_get", "def f(a, b):\n    return a[a > 0]", (3, 2), (1,)),
+    ("mask2d_update", "def f(a, b):\n    c = b.clone()\n    m = a > 0\n    c[m] = c[m] * 3 * a[m] ** 2\n    c[torch.logical_not(m)] = 0\n    return c", (3, 2), (3, 2)),
     ("sort_values", "def f(a, b):\n    return torch.sort(a).values", (6,), (1,)),
     ("tensor_from_nested", "def f(a, b):\n    return torch.tensor([[a[0].item(), 1.0], [2, a[1].item()]])", (2,), (1,)),
 ]
